@@ -125,7 +125,7 @@ PROPS = {
                       "io::Error::new (payload dropped by the shim).",
     },
     "C10": {
-        "units": ["distinfo"],
+        "units": ["distinfo", "digest"],
         "design_ref": "DESIGN.md section 8 / C10",
         "replay": "distinfo",
         "level_text": "Unbounded proof on the real functions: Distinfo::as_bytes / Entry::as_bytes / push_checksum_line / push_size_line write exactly "
@@ -138,7 +138,7 @@ PROPS = {
                       "name table; `{}` of u64 assumed to re-parse); Digest Display via Formatter shim.",
     },
     "C11": {
-        "units": ["distinfo"],
+        "units": ["distinfo", "digest"],
         "design_ref": "DESIGN.md section 8 / C11",
         "replay": "distinfo",
         "level_text": "Unbounded proof on the real functions: Line::from_bytes == line_spec (leading blanks, comments, '$NetBSD: ' lines, "
@@ -153,57 +153,21 @@ PROPS = {
                       "uninterpreted; ASCII case folding assumed for ASCII names).",
     },
     "C12": {
-        "units": ["distinfo"],
+        "units": ["distinfo", "digest"],
         "design_ref": "DESIGN.md section 8 / C12",
         "replay": "distinfo",
-        "level_text": "Unbounded proof on the real functions, over an uninterpreted world (w_len(path), w_digest(algorithm, kind, path)): "
-                      "Entry::verify_size returns Ok(size) iff a size is recorded and the file's length equals it, Size(name, recorded, actual) on a "
-                      "mismatch, MissingSize when unrecorded, Io when the file cannot be read; verify_checksum_internal uses the first recorded "
-                      "checksum of that algorithm, hashes by the entry's kind (patch filter for patches), Ok iff the strings are equal, "
-                      "Checksum(name, algo, expected, actual) otherwise, MissingChecksum when none; Distinfo::find_entry returns the entry of the "
-                      "SHORTEST recorded trailing sub-path (found_at), NotFound iff none.",
-        "level_note": VERUS_TRUST + "world functions File::open/metadata/hash_file/hash_patch (that w_digest is the standard digest is C13, not decided); "
-                      "std::path algebra (components, join, parent, equality) as uninterpreted functions with three axioms.",
-    },
-    "C14": {
-        "units": ["plist"],
-        "design_ref": "DESIGN.md section 8 / C14",
-        "replay": "plist",
-        "level_text": "Unbounded proof on the real functions: Plist::from_bytes' scanner is proved to collect exactly `ranges(bytes)` - the "
-                      "'\\n'-separated segments containing a non-whitespace byte, in order, with or without a final newline (abstraction "
-                      "invariant lines ++ ranges(b,start) == ranges(b,0)) - and to push, for each, PlistEntry::from_bytes of exactly that "
-                      "slice (so each entry equals parsing that line alone; first failing line fails the whole parse). PlistEntry::from_bytes "
-                      "(macros expanded mechanically) is proved equal to entry_spec: the statement's command table with its "
-                      "required/optional/forbidden argument rule, argument = bytes after the first space with leading blanks stripped, "
-                      "UTF-8 required for name/dependency/mode/owner/group.",
-        "level_note": VERUS_TRUST + "OsStr/OsString as opaque byte containers (S-os shims), String::from_utf8, from_utf8_lossy (ASCII words decode "
-                      "to themselves and only to themselves), slice position; char::is_whitespace/u8::is_ascii (vstd / assumed scalar). "
-                      "`?` with an error conversion is written out as its defining match (rule D14) so that the Utf8 error kind is pinned.",
-    },
-    "C15": {
-        "units": ["plist"],
-        "design_ref": "DESIGN.md section 8 / C15",
-        "replay": "plist",
-        "level_text": "Unbounded proof on the real functions (iterator chains rewritten mechanically into indexed loops, closure bodies "
-                      "inlined): files/files_prefixed/install_cmds/uninstall_cmds return exactly kept_files / cmds of the entry sequence "
-                      "(flag automaton: an @ignore anywhere since the previous file drops the next file), prefixed with the most recent "
-                      "@cwd (+ '/' unless it ends in one); depends/build_depends/conflicts/pkgdirs/pkgrmdirs return every entry of "
-                      "their kind in order, pkgname/display the first, is_preserve iff an @option preserve exists; lemma_cmds_files: "
-                      "the file entries of both command lists are exactly files().",
-        "level_note": VERUS_TRUST + "rewrite rules D1-D4/D7 (loop forms of filter_map/filter/find_map/count, macro expansion) - the verified "
-                      "text is the rewritten form; OsString shims (push, to_os_string, to_string_lossy().ends_with('/')).",
-    },
-    "C18": {
-        "units": ["pkgname", "dewey", "summary"],
-        "always_devs": ["letter_value_is_ascii_code"],
-        "design_ref": "DESIGN.md section 8 / C18",
-        "replay": "pkgname",
-        "level_text": "Unbounded proof: PkgName::new (real code) returns exactly the split at the last '-' for every string "
-                      "(base ++ '-' ++ version == name), reports Some(N) for every version ending in nb<1..18 digits> and None when the "
-                      "version contains no 'nb'; lemma_tok_rev proves by induction over the tokeniser that this N is the revision "
-                      "vtok extracts, and DeweyVersion::new is proved equal to vtok (unit dewey).",
-        "level_note": VERUS_TRUST + "shims (assumed std contracts) for rsplit_once(char), rsplit_once(\"nb\"), parse::<i64>, String::from, "
-                      "Option::or, rfind(char); Summary::pkgbase()/pkgversion() are proved (unit summary) to return base_of/version_of of PKGNAME exactly when both parts are non-empty.",
+        "level_text": "Unbounded proof on the real functions over an uninterpreted file system (w_len(path), w_content(path)): Entry::verify_size returns "
+                      "Ok(size) iff a size is recorded and the file's length equals it, Size(name, recorded, actual) on a mismatch, MissingSize when "
+                      "unrecorded, Io when the file cannot be read; verify_checksum_internal uses the first recorded checksum of that algorithm and "
+                      "compares it with hex(std_digest(algorithm, content)) - for patch entries of the content with every '$NetBSD' line removed "
+                      "(the contracts of Digest::hash_file/hash_patch are imported from unit digest, which proves them in the same run) - Ok iff "
+                      "equal, Checksum(name, algo, expected, actual) otherwise, MissingChecksum when none; Distinfo::find_entry returns the entry of "
+                      "the SHORTEST recorded trailing sub-path (found_at), NotFound iff none; Distinfo::verify_size / verify_checksum / "
+                      "verify_checksums and Entry::verify_checksum(s) are proved to be exactly lookup-then-verify (one result per recorded checksum, "
+                      "in order; a single NotFound when the path is unknown); calculate_size / calculate_checksum return the world's length / digest.",
+        "level_note": VERUS_TRUST + "world functions File::open / metadata().len() / reading a File (stream_of(file) == w_content(path)); std_digest is the "
+                      "standard algorithm only by assumption on the RustCrypto cores (C13); std::path algebra (components, join, parent, equality) as "
+                      "uninterpreted functions with three axioms; IndexMap assumed.",
     },
     "C13": {
         "units": ["digest"],
@@ -254,10 +218,10 @@ PROPS = {
         "level_note": VERUS_TRUST + "all assumed std contracts and world functions of the ten units (their shims are assumed not to panic when their stated "
                       "preconditions hold); 'promptly' is proved as termination only, not as a time bound; allocation failure and stack depth are outside the model "
                       "(alternate_match recursion depth is bounded by the number of '{' in the pattern).",
-        "not_under_contract": ["impl Deserialize for ScanIndex (serde glue, watched)", "the RustCrypto cores behind Digest::hash_* (external crates; modelled, C13)",
-                               "Distinfo::calculate_size/calculate_checksum and verify_* beyond the contracts of unit distinfo that call into the file system",
-                               "PkgDB::open", "derive-generated Debug/Clone/PartialEq/Hash/Ord impls", "serde Serialize/Deserialize derives",
-                               "Summary Display/FromStr are under contract; SummaryStream::flush"],
+        "not_under_contract": ["impl Deserialize for ScanIndex and ScanIndex::str_to_index (serde glue, watched)", "the RustCrypto cores behind Digest::hash_* (external crates; modelled, C13)",
+                               "Display / Error::source / PartialEq impls of the error types (DeweyError, DigestError, PlistError, SummaryError, MissingVariable)",
+                               "SummaryStream::entries_mut (returns &mut Vec)", "KeyValue::expecting", "Display for SummaryValue",
+                               "derive-generated Debug/Clone/PartialEq/Hash/Ord impls", "serde Serialize/Deserialize derives"],
     },
     "C19": {
         "units": ["pkgpath", "pattern", "dewey", "pkgname"],
@@ -282,12 +246,12 @@ PROPS = {
                       "remaining directory entries) skips every entry that is a plain file or lacks +COMMENT/+CONTENTS/+DESC and yields, for the "
                       "first valid one, a Package whose pkgname is the directory name and whose pkgbase/pkgversion are the parts before/after "
                       "its last '-' (whole name / empty for a name without '-'), InvalidData for a non-UTF-8 name; is_valid_pkgdir == the three "
-                      "existence tests; Package::read_metadata reads <dir>/<+FILE>; MetadataEntry::to_filename/from_filename are proved to be "
+                      "existence tests; PkgDB::open yields a handle whose directory listing is the world's (so next()'s expect() cannot fail) or an error; Package::read_metadata reads <dir>/<+FILE>; Metadata::read_metadata is proved equal to read_spec (trimmed text; list entries = its lines; mandatory texts appended; sizes must be i64 text, otherwise an error and no change) with all 14 getters; MetadataEntry::to_filename/from_filename are proved to be "
                       "mutually inverse over the 14 names (lemma_metadata_names_bijective); Metadata::is_valid == comment, contents and "
                       "description all non-empty.",
         "level_note": VERUS_TRUST + "'each sub-directory exactly once' is std::fs::ReadDir's contract (modelled as a sequence of remaining entries); "
-                      "Path::is_file / join().exists() / read_to_string / DirEntry accessors are world functions; PkgDB::open and the (unimplemented) "
-                      "Database back end are not under contract.",
+                      "Path::is_dir / is_file / join().exists() / read_dir / read_to_string / DirEntry accessors are world functions; the (unimplemented) "
+                      "Database back end yields nothing.",
     },
 }
 
